@@ -5,6 +5,7 @@ import Driver.OpsCodec
 import Driver.OpsCond
 import Driver.OpsPath
 import Driver.OpsFs
+import Driver.OpsRawXml
 namespace Driver
 
 def dispatch (op : String) (args : List SExp) : Option OpResult :=
@@ -41,6 +42,8 @@ def dispatch (op : String) (args : List SExp) : Option OpResult :=
   | "extpath" => opExtPath args
   | "rtype" => opRType args
   | "fs.req" => opFsReq args
+  | "raw.rt" => opRawRt args
+  | "raw.typed" => opRawTyped args
   | "card.filter" => opCardFilter args
   | _ => none
 
